@@ -37,35 +37,36 @@ VARIABLES ready,          \* set_rules_dir has succeeded
           expr,           \* current expression or NoExpr
           pos, stack, markers,   \* navigation: current node, earlier positions, place markers
           table,          \* kind -> [for |-> language/code it was loaded for (or "#none"), ver |-> file version]
-          file,           \* kind -> [ver, good]  the rule file of the CURRENT selection on disk
+          file,           \* kind -> selection -> [ver, good]  the rule file of each language / code on disk
           checkAll,       \* CheckRuleFiles = All (file versions are looked at on every use) or Prefs (only when a selection changes)
           repointVer,     \* kind -> version of the file at the last set_rules_dir (history: what a re-pointed session must at least see)
           last            \* [op, res] of the last call (observation only)
 vars == <<ready, lang, code, highlight, expr, pos, stack, markers, table, file, checkAll, repointVer, last>>
 
 Sel(k) == IF k = "speech" THEN lang ELSE code
-Fresh(k) == table[k].for = Sel(k) /\ (checkAll => table[k].ver = file[k].ver)
+Cur(k) == file[k][Sel(k)]                                    \* the file of the current selection
+Fresh(k) == table[k].for = Sel(k) /\ (checkAll => table[k].ver = Cur(k).ver)
 Nodes == IF expr = NoExpr THEN {} ELSE NodesOf[expr]
 
 Init == /\ ready = FALSE /\ lang \in Langs /\ code \in Codes /\ highlight = "Off"
         /\ expr = NoExpr /\ pos = NoNode /\ stack = <<>> /\ markers = {}
         /\ table = [k \in Kinds |-> [for |-> "#none", ver |-> 0]]
-        /\ file = [k \in Kinds |-> [ver |-> 1, good |-> TRUE]]
-        /\ checkAll \in BOOLEAN /\ repointVer = [k \in Kinds |-> 0]
+        /\ file = [k \in Kinds |-> [x \in (IF k = "speech" THEN Langs ELSE Codes) |-> [ver |-> 1, good |-> TRUE]]]
+        /\ checkAll \in BOOLEAN /\ repointVer = [k \in Kinds |-> [x \in (IF k = "speech" THEN Langs ELSE Codes) |-> 0]]
         /\ last = [op |-> "init", res |-> "ok"]
 
 Ret(op, res) == last' = [op |-> op, res |-> res]
 
 (* lazy (re)load of one table on use: succeeds iff the file is good; a failed load leaves NO table (562846e) *)
 Load(k) == IF Fresh(k) THEN table' = table
-           ELSE IF file[k].good THEN table' = [table EXCEPT ![k] = [for |-> Sel(k), ver |-> file[k].ver]]
+           ELSE IF Cur(k).good THEN table' = [table EXCEPT ![k] = [for |-> Sel(k), ver |-> Cur(k).ver]]
            ELSE table' = [table EXCEPT ![k] = [for |-> "#none", ver |-> 0]]
-LoadOk(k) == Fresh(k) \/ file[k].good
+LoadOk(k) == Fresh(k) \/ Cur(k).good
 
 SetRulesDir ==
   /\ ready' = TRUE
   /\ table' = IF SameDirKeepsTables /\ ready THEN table ELSE [k \in Kinds |-> [for |-> "#none", ver |-> 0]]
-  /\ repointVer' = [k \in Kinds |-> file[k].ver]
+  /\ repointVer' = [k \in Kinds |-> [x \in DOMAIN file[k] |-> file[k][x].ver]]
   /\ Ret("set_rules_dir", "ok")
   /\ UNCHANGED <<lang, code, highlight, expr, pos, stack, markers, file, checkAll>>
 
@@ -109,7 +110,8 @@ Move(n) ==
   /\ IF LoadOk("speech")
      THEN /\ pos' = n /\ stack' = IF n # pos /\ Len(stack) < MaxStack THEN Append(stack, pos) ELSE stack
           /\ Ret("do_navigate_command", "ok")
-     ELSE /\ UNCHANGED <<pos, stack>> /\ Ret("do_navigate_command", "err")
+     ELSE /\ pos' \in {pos, n} /\ stack' \in {stack, IF Len(stack) < MaxStack THEN Append(stack, pos) ELSE stack}
+          /\ Ret("do_navigate_command", "err")
   /\ UNCHANGED <<ready, lang, code, highlight, expr, markers, file, checkAll, repointVer>>
 MoveBack ==
   /\ ready /\ expr # NoExpr /\ stack # <<>>
@@ -128,6 +130,18 @@ SetNavNode(n) ==
      ELSE UNCHANGED <<pos, stack>> /\ Ret("set_navigation_node", "err")
   /\ UNCHANGED <<ready, lang, code, highlight, expr, markers, table, file, checkAll, repointVer>>
 
+(* a reading command speaks and leaves the position alone; any navigation command may also fail for reasons of its own (nothing
+   to move to, no such marker): then the position is still inside the expression *)
+ReadCmd == /\ ready /\ expr # NoExpr /\ Load("speech")
+           /\ Ret("do_navigate_command", IF LoadOk("speech") THEN "ok" ELSE "err")
+           /\ UNCHANGED <<ready, lang, code, highlight, expr, pos, stack, markers, file, checkAll, repointVer>>
+NavErr == /\ ready /\ expr # NoExpr /\ Load("speech")
+          /\ pos' \in Nodes /\ stack' \in {stack, IF Len(stack) < MaxStack THEN Append(stack, pos) ELSE stack}
+          /\ Ret("do_navigate_command", "err")
+          /\ UNCHANGED <<ready, lang, code, highlight, expr, markers, file, checkAll, repointVer>>
+SetCheck(b) == /\ ready /\ checkAll' = b /\ Ret("set_preference", "ok")
+               /\ UNCHANGED <<ready, lang, code, highlight, expr, pos, stack, markers, table, file, repointVer>>
+
 (* get_navigation_node_from_braille_position: overrides the highlight preference for its search and restores it *)
 Route(fails) ==
   /\ ready /\ expr # NoExpr
@@ -138,9 +152,9 @@ Route(fails) ==
   /\ UNCHANGED <<ready, lang, code, expr, pos, stack, markers, file, checkAll, repointVer>>
 
 (* the environment: a rule file of the current selection is damaged or repaired (each changes its version) *)
-Damage(k) == /\ file[k].ver < MaxVer /\ file' = [file EXCEPT ![k] = [ver |-> file[k].ver + 1, good |-> FALSE]]
+Damage(k, x) == /\ file[k][x].ver < MaxVer /\ file' = [file EXCEPT ![k][x] = [ver |-> file[k][x].ver + 1, good |-> FALSE]]
              /\ UNCHANGED <<ready, lang, code, highlight, expr, pos, stack, markers, table, last, checkAll, repointVer>>
-Repair(k) == /\ file[k].ver < MaxVer /\ ~file[k].good /\ file' = [file EXCEPT ![k] = [ver |-> file[k].ver + 1, good |-> TRUE]]
+Repair(k, x) == /\ file[k][x].ver < MaxVer /\ ~file[k][x].good /\ file' = [file EXCEPT ![k][x] = [ver |-> file[k][x].ver + 1, good |-> TRUE]]
              /\ UNCHANGED <<ready, lang, code, highlight, expr, pos, stack, markers, table, last, checkAll, repointVer>>
 
 Next == \/ SetRulesDir
@@ -153,7 +167,9 @@ Next == \/ SetRulesDir
         \/ \E n \in UNION {NodesOf[e] : e \in Exprs} : Move(n) \/ SetNavNode(n) \/ GoToMarker(n)
         \/ MoveBack \/ SetMarker
         \/ \E f \in BOOLEAN : Route(f)
-        \/ \E k \in Kinds : Damage(k) \/ Repair(k)
+        \/ \E k \in Kinds : \E x \in DOMAIN file[k] : Damage(k, x) \/ Repair(k, x)
+        \/ \E b \in BOOLEAN : SetCheck(b)
+        \/ ReadCmd \/ NavErr
 Spec == Init /\ [][Next]_vars
 
 (***************************************************************************)
@@ -164,14 +180,15 @@ TypeOK == /\ expr \in Exprs \cup {NoExpr} /\ pos \in Nodes \cup {NoNode} /\ Len(
 NavInExpr == expr # NoExpr => pos \in Nodes /\ (\A i \in 1..Len(stack) : stack[i] \in Nodes) /\ markers \subseteq Nodes
 \* C10 / C14: an answer is computed from the tables of the current selection and the current files
 \* (every API action sets 'last'; only the environment leaves it alone, and it changes 'file')
-FreshAfter(k) == /\ table'[k].for = (IF k = "speech" THEN lang' ELSE code')
-                 /\ (checkAll => table'[k].ver = file'[k].ver)
-                 /\ table'[k].ver >= repointVer'[k]             \* C14: set_rules_dir makes the session look at the files again
+FreshAfter(k) == LET sel == IF k = "speech" THEN lang' ELSE code' IN
+                 /\ table'[k].for = sel
+                 /\ (checkAll => table'[k].ver = file'[k][sel].ver)
+                 /\ table'[k].ver >= repointVer'[k][sel]             \* C14: set_rules_dir makes the session look at the files again
 AnswerIsFresh == [][file' = file /\ last'.res = "ok" /\ last'.op = "get_spoken_text" => FreshAfter("speech")]_vars
 AnswerIsFreshBraille == [][file' = file /\ last'.res = "ok" /\ last'.op \in {"get_braille", "get_navigation_node_from_braille_position"} => FreshAfter("braille")]_vars
 \* C20: a query never changes a preference (action property, checked as: the highlight style is only changed by set_preference)
 QueriesKeepPreferences == [][last'.op \in {"get_spoken_text", "get_braille", "get_navigation_node_from_braille_position", "do_navigate_command", "set_navigation_node", "set_mathml"}
                               => highlight' = highlight /\ lang' = lang /\ code' = code]_vars
 \* C08 / C14: a failure is reported, and the session recovers: once the files are good again every getter answers
-RecoversAfterRepair == [][file' = file /\ (\A k \in Kinds : file[k].good) /\ ready /\ expr # NoExpr /\ last'.op \in {"get_spoken_text", "get_braille"} => last'.res = "ok"]_vars
+RecoversAfterRepair == [][file' = file /\ checkAll /\ (\A k \in Kinds : Cur(k).good) /\ ready /\ expr # NoExpr /\ last'.op \in {"get_spoken_text", "get_braille"} => last'.res = "ok"]_vars
 =============================================================================
